@@ -147,6 +147,10 @@ type Node struct {
 	lastFileWrite map[string]int64
 	scannedHeight int64 // block-store heights already exported to the pool
 	lastDigest    string
+	digPrev       *Dig // digest before the last step that changed it
+	digLast       *Dig
+	crash         *crashInfo
+	claimsAt      map[int64]int // height -> peer-majority claims delivered to any incarnation
 }
 
 type World struct {
@@ -195,6 +199,8 @@ type World struct {
 	DrawInject      func(w *World, live []*Node) (simrt.Action, bool)
 	OnRestart       func(w *World, nd *Node)
 	StopOnViolation bool
+	AtEnd           func(w *World)
+	TrackDigests    bool
 	Target          string          // property whose violations end the run
 	Known           map[string]bool // property/oracle/key of known findings: recorded, never end the run
 }
@@ -264,7 +270,7 @@ func NewWorld(t *testing.T, cfg Config) *World {
 		if v.byz {
 			continue
 		}
-		nd := &Node{id: i, val: v, dir: filepath.Join(dir, fmt.Sprintf("n%d", i)), disk: simdisk.NewDisk(), lastFileWrite: map[string]int64{}}
+		nd := &Node{id: i, val: v, dir: filepath.Join(dir, fmt.Sprintf("n%d", i)), disk: simdisk.NewDisk(), lastFileWrite: map[string]int64{}, claimsAt: map[int64]int{}}
 		os.MkdirAll(nd.dir, 0700)
 		w.nodes[i] = nd
 	}
@@ -395,6 +401,8 @@ func (w *World) StartNode(nd *Node) bool {
 				if cs.Validators.VerifSetProposer(addr) {
 					w.Probes.Inc("proposer_cache_compensated")
 				}
+			} else if nd.crash != nil {
+				nd.crash.uncompensated = true
 			}
 		}
 		cs.SetPrivValidator(&signerRec{pv: pv, w: w, node: nd.id})
